@@ -1,32 +1,101 @@
-(* C04 - a small evaluation semantics for expression trees over Python integers (booleans are 0 / 1): names, non-negative integer
-   literals, + - *, unary minus, not, and / or with their short-circuit value semantics, comparison chains, conditional expressions.
-   Everything else evaluates to None ("outside the fragment").  Used to state "the value bound as query parameter is Python's value
-   of the subexpression".  Definitions only. *)
+(* C04 - an evaluation semantics for expression trees over a small Python value domain: integers (booleans are 0 / 1), strings,
+   tuples.  Covered: names, non-negative integer literals, plain string literals, tuple displays, + (integers, strings, tuples),
+   - and * on integers, unary minus, not, and / or with their short-circuit value semantics, comparison chains (== != on everything,
+   < <= > >= on integers and, lexicographically, on strings), conditional expressions, indexing a tuple or string with an integer.
+   Everything else evaluates to None ("outside the fragment", which includes Python's TypeError cases).  Used to state "the value bound as
+   query parameter is Python's value of the subexpression".  Definitions only. *)
 From Coq Require Import ZArith List Bool.
 Import ListNotations.
 Require Import PonyV.Model.C04Expr PonyV.Model.C04Parse.
 Open Scope Z_scope.
 
-Definition env := str -> option Z.
+Inductive pyv := VInt (z : Z) | VStr (s : str) | VTuple (vs : list pyv).
+
+Definition env := str -> option pyv.
+
+Fixpoint pyv_eqb (a b : pyv) {struct a} : bool :=
+  match a, b with
+  | VInt x, VInt y => x =? y
+  | VStr x, VStr y => str_eqb x y
+  | VTuple xs, VTuple ys =>
+      (fix go (xs ys : list pyv) : bool :=
+         match xs, ys with [], [] => true | x :: xs', y :: ys' => pyv_eqb x y && go xs' ys' | _, _ => false end) xs ys
+  | _, _ => false
+  end.
+
+Fixpoint str_ltb (a b : str) : bool :=
+  match a, b with
+  | _, [] => false
+  | [], _ :: _ => true
+  | x :: a', y :: b' => (x <? y) || ((x =? y) && str_ltb a' b')
+  end.
 
 Fixpoint digits (s : str) (acc : Z) : option Z :=
   match s with
   | [] => Some acc
   | c :: r => if (48 <=? c) && (c <=? 57) then digits r (acc * 10 + (c - 48)) else None
   end.
-Definition const_val (s : str) : option Z := match s with [] => None | _ => digits s 0 end.
 
-Definition truthy (z : Z) : bool := negb (z =? 0).
-
-Definition cmp_sem (o : cmpop) (a b : Z) : option bool :=
-  match o with
-  | CEq => Some (a =? b) | CNotEq => Some (negb (a =? b)) | CLt => Some (a <? b) | CLtE => Some (a <=? b)
-  | CGt => Some (b <? a) | CGtE => Some (b <=? a) | _ => None
+(* repr text of a constant: decimal digits, or '...' without quote and backslash inside *)
+Definition const_val (s : str) : option pyv :=
+  match s with
+  | [] => None
+  | 39 :: r =>
+      match rev r with
+      | 39 :: body' => let body := rev body' in
+                       if forallb (fun c => negb ((c =? 39) || (c =? 92))) body then Some (VStr body) else None
+      | _ => None
+      end
+  | _ => option_map VInt (digits s 0)
   end.
 
+Definition truthy (v : pyv) : bool :=
+  match v with VInt z => negb (z =? 0) | VStr s => negb (length s =? 0)%nat | VTuple vs => negb (length vs =? 0)%nat end.
+
+Definition lt_sem (a b : pyv) : option bool :=
+  match a, b with VInt x, VInt y => Some (x <? y) | VStr x, VStr y => Some (str_ltb x y) | _, _ => None end.
+
+Definition cmp_sem (o : cmpop) (a b : pyv) : option bool :=
+  match o with
+  | CEq => Some (pyv_eqb a b)
+  | CNotEq => Some (negb (pyv_eqb a b))
+  | CLt => lt_sem a b
+  | CGt => lt_sem b a
+  | CLtE => option_map (fun l => l || pyv_eqb a b) (lt_sem a b)
+  | CGtE => option_map (fun l => l || pyv_eqb a b) (lt_sem b a)
+  | _ => None
+  end.
+
+Definition add_sem (a b : pyv) : option pyv :=
+  match a, b with
+  | VInt x, VInt y => Some (VInt (x + y))
+  | VStr x, VStr y => Some (VStr (x ++ y))
+  | VTuple x, VTuple y => Some (VTuple (x ++ y))
+  | _, _ => None
+  end.
+
+Definition int2 (f : Z -> Z -> Z) (a b : pyv) : option pyv :=
+  match a, b with VInt x, VInt y => Some (VInt (f x y)) | _, _ => None end.
+
+Definition index_sem (a i : pyv) : option pyv :=
+  match i with
+  | VInt z =>
+      match a with
+      | VTuple vs => let n := Z.of_nat (length vs) in let k := if z <? 0 then z + n else z in
+                     if (0 <=? k) && (k <? n) then nth_error vs (Z.to_nat k) else None
+      | VStr s => let n := Z.of_nat (length s) in let k := if z <? 0 then z + n else z in
+                  if (0 <=? k) && (k <? n) then option_map (fun c => VStr [c]) (nth_error s (Z.to_nat k)) else None
+      | _ => None
+      end
+  | _ => None
+  end.
+
+Definition bind2 (f : pyv -> pyv -> option pyv) (a b : option pyv) : option pyv :=
+  match a, b with Some x, Some y => f x y | _, _ => None end.
+
 (* x or y or ...: the first truthy value, else the last; x and y and ...: the first falsy value, else the last *)
-Definition eval_bool (ev : expr -> option Z) (stop_on : bool) : list expr -> option Z :=
-  fix go (cs : list expr) : option Z :=
+Definition eval_bool (ev : expr -> option pyv) (stop_on : bool) : list expr -> option pyv :=
+  fix go (cs : list expr) : option pyv :=
     match cs with
     | [] => None
     | [c] => ev c
@@ -34,39 +103,45 @@ Definition eval_bool (ev : expr -> option Z) (stop_on : bool) : list expr -> opt
     end.
 
 (* a < b <= c ...: operands evaluated left to right, stops at the first false link *)
-Definition eval_chain (ev : expr -> option Z) : Z -> list cmpop -> list expr -> option Z :=
-  fix go (v : Z) (ops : list cmpop) (cs : list expr) {struct cs} : option Z :=
+Definition eval_chain (ev : expr -> option pyv) : pyv -> list cmpop -> list expr -> option pyv :=
+  fix go (v : pyv) (ops : list cmpop) (cs : list expr) {struct cs} : option pyv :=
     match ops, cs with
-    | [], [] => Some 1
+    | [], [] => Some (VInt 1)
     | o :: ops', c :: cs' =>
         match ev c with
-        | Some w => match cmp_sem o v w with Some true => go w ops' cs' | Some false => Some 0 | None => None end
+        | Some w => match cmp_sem o v w with Some true => go w ops' cs' | Some false => Some (VInt 0) | None => None end
         | None => None
         end
     | _, _ => None
     end.
 
-Definition lift2 (f : Z -> Z -> Z) (a b : option Z) : option Z :=
-  match a, b with Some x, Some y => Some (f x y) | _, _ => None end.
+Definition eval_all (ev : expr -> option pyv) : list expr -> option (list pyv) :=
+  fix go (cs : list expr) : option (list pyv) :=
+    match cs with
+    | [] => Some []
+    | c :: r => match ev c, go r with Some v, Some vs => Some (v :: vs) | _, _ => None end
+    end.
 
-Fixpoint ceval (rho : env) (e : expr) {struct e} : option Z :=
+Fixpoint ceval (rho : env) (e : expr) {struct e} : option pyv :=
   match e with Node l cs =>
     match l, cs with
     | LName s, [] => rho s
     | LConst s, [] => const_val s
-    | LOp KAdd, [a; b] => lift2 Z.add (ceval rho a) (ceval rho b)
-    | LOp KSub, [a; b] => lift2 Z.sub (ceval rho a) (ceval rho b)
-    | LOp KMult, [a; b] => lift2 Z.mul (ceval rho a) (ceval rho b)
-    | LOp KUSub, [a] => option_map Z.opp (ceval rho a)
-    | LOp KNot, [a] => option_map (fun z => if truthy z then 0 else 1) (ceval rho a)
-    | LOp KIfExp, [b; t; o] => match ceval rho t with Some z => if truthy z then ceval rho b else ceval rho o | None => None end
+    | LOp KAdd, [a; b] => bind2 add_sem (ceval rho a) (ceval rho b)
+    | LOp KSub, [a; b] => bind2 (int2 Z.sub) (ceval rho a) (ceval rho b)
+    | LOp KMult, [a; b] => bind2 (int2 Z.mul) (ceval rho a) (ceval rho b)
+    | LOp KUSub, [a] => match ceval rho a with Some (VInt z) => Some (VInt (- z)) | _ => None end
+    | LOp KNot, [a] => option_map (fun v => VInt (if truthy v then 0 else 1)) (ceval rho a)
+    | LOp KIfExp, [b; t; o] => match ceval rho t with Some v => if truthy v then ceval rho b else ceval rho o | None => None end
     | LOp KOr, _ => eval_bool (ceval rho) true cs
     | LOp KAnd, _ => eval_bool (ceval rho) false cs
+    | LOp KTuple, _ => option_map VTuple (eval_all (ceval rho) cs)
+    | LOp KSubscript, [a; i] => bind2 index_sem (ceval rho a) (ceval rho i)
     | LCompare ops, a :: rest => match ceval rho a with Some v => eval_chain (ceval rho) v ops rest | None => None end
     | _, _ => None
     end
   end.
 
 (* Python's eval(compile(src)) of a token list: parse (SyntaxError = None), then evaluate *)
-Definition eval_tokens (f : nat) (ts : list tok) (rho : env) : option Z :=
+Definition eval_tokens (f : nat) (ts : list tok) (rho : env) : option pyv :=
   match parse_top f ts with Some t => ceval rho t | None => None end.
